@@ -41,7 +41,7 @@ inductive AOut (s : Srv) (c : Nat) (req : Req) (s' : Srv) : HRes → Prop
   | issued : s'.nextNonce = s.nextNonce → s'.nClients = s.nClients + 1 → s'.accepted = s.accepted → req.first = true →
       s'.ctl c = some { getCtl s c with id := some s.nClients, auth := true } → AOut s c req s' (.issued s.nClients)
   | ok (x n : Nat) : s'.nextNonce = s.nextNonce → s'.nClients = s.nClients → s'.accepted = n :: s.accepted → req.first = false →
-      req.k = .idx x → x < s.nClients → flagsOK s.now (s.env.cl x) = true → req.resp = .hmac x (some n) →
+      req.k = .idx x → x < s.nClients → flagsOK s.now (s.env.cl x) = true → req.resp = .hmac (.client x) (some n) →
       (getCtl s c).pending = some n → s'.ctl c = some { auth := true, id := some x, pending := none } → AOut s c req s' .ok
 
 theorem authenticate_spec (s : Srv) (c : Nat) (req : Req) :
@@ -103,7 +103,7 @@ theorem authenticate_spec (s : Srv) (c : Nat) (req : Req) :
                   · intro c' hc; simp [setCtl, recordSuccess, upd_other _ _ _ _ hc]
                   · refine AOut.ok k n rfl rfl rfl hf hkk hlt.1 ?_ hv.2 hn (by simp [setCtl, recordSuccess])
                     simp only [flagsOK, Bool.and_eq_true, Bool.not_eq_true']
-                    exact ⟨⟨by simpa using hexp, hlt.2⟩, hv.1⟩
+                    exact ⟨⟨by simpa using hexp, hlt.2⟩, by simp only [beq_iff_eq]; exact hv.1⟩
                 · exact absurd hk (by simp)
 
 theorem SameFrame.trans {s t u : Srv} (h1 : SameFrame s t) (h2 : SameFrame t u) : SameFrame s u := by
@@ -330,7 +330,7 @@ theorem respond_spec (t : Srv) (c : Nat) (ty : Ty) (res : HRes) :
 def JrCore (s : Srv) (c : Nat) (req : Req) (res : HRes) (n' x : Nat) : Prop :=
   (req.first = true ∧ x = s.nClients ∧ n' = x + 1 ∧ res = .issued x) ∨
   (req.first = false ∧ req.k = .idx x ∧ x < s.nClients ∧ flagsOK s.now (s.env.cl x) = true ∧
-    ∃ n, req.resp = .hmac x (some n) ∧ pend (s.ctl c) = some n ∧ res = .ok)
+    ∃ n, req.resp = .hmac (.client x) (some n) ∧ pend (s.ctl c) = some n ∧ res = .ok)
 
 theorem AOut_mid {s : Srv} {c : Nat} {req : Req} {t : Srv} {res : HRes} (h : AOut s c req t res)
     (hsome : s.ctl c = some (getCtl s c)) :
@@ -400,7 +400,7 @@ def Jr (s : Srv) (c : Nat) (req : Req) (r : RespObs) (n' x : Nat) : Prop :=
   s.env.bl (s.ipOf c) = false ∧ s.banned (s.ipOf c) = false ∧
   ((req.first = true ∧ x = s.nClients ∧ n' = x + 1 ∧ (r = .new x ∨ r = .none)) ∨
    (req.first = false ∧ req.k = .idx x ∧ x < s.nClients ∧ flagsOK s.now (s.env.cl x) = true ∧
-      ∃ n, req.resp = .hmac x (some n) ∧ pend (s.ctl c) = some n ∧ (r = .ok ∨ r = .none)))
+      ∃ n, req.resp = .hmac (.client x) (some n) ∧ pend (s.ctl c) = some n ∧ (r = .ok ∨ r = .none)))
 
 structure HSpec (s : Srv) (c : Nat) (req : Req) (s' : Srv) (r : RespObs) : Prop where
   frame : s'.now = s.now ∧ s'.nConns = s.nConns ∧ s'.ipOf = s.ipOf ∧ s'.nIps = s.nIps ∧ s'.env = s.env
@@ -544,7 +544,7 @@ def Jm (s : Srv) (e : Event) (r : RespObs) (n' c x : Nat) : Prop :=
   s.env.bl (s.ipOf c) = false ∧ s.banned (s.ipOf c) = false ∧
   ((∃ ty, e = .fc c ty ∧ x = s.nClients ∧ n' = x + 1 ∧ (r = .new x ∨ r = .none)) ∨
    (∃ ty key nr n, e = .hs c ty (.idx x) (.hmac key nr) ∧ x < s.nClients ∧ flagsOK s.now (s.env.cl x) = true ∧
-      key = x ∧ s.env.resolveN nr = some n ∧ pend (s.ctl c) = some n ∧ (r = .ok ∨ r = .none)))
+      key = .client x ∧ s.env.resolveN nr = some n ∧ pend (s.ctl c) = some n ∧ (r = .ok ∨ r = .none)))
 
 structure StepSpec (s : Srv) (e : Event) (s' : Srv) (r : RespObs) : Prop where
   frame : s'.now = s.now ∧ s'.nConns = s.nConns ∧ s'.ipOf = s.ipOf ∧ s'.nIps = s.nIps ∧ s'.env = s.env
@@ -626,7 +626,7 @@ theorem StepSpec.of_HSpec {s : Srv} {e : Event} {c : Nat} {req : Req} {s' : Srv}
     obtain ⟨ty, k, rr, he⟩ := hch n hr f
     exact ⟨a, d, c, ty, k, rr, he, b⟩
 
-theorem resolve_hmac {g : Env} {rr : RespRef} {x n : Nat} (h : g.resolve rr = .hmac x (some n)) :
+theorem resolve_hmac {g : Env} {rr : RespRef} {x : Key} {n : Nat} (h : g.resolve rr = .hmac x (some n)) :
     ∃ nr, rr = .hmac x nr ∧ g.resolveN nr = some n := by
   cases rr with
   | none => simp [Env.resolve] at h
@@ -657,7 +657,7 @@ theorem stepCore_spec (s : Srv) (e : Event) : StepSpec s e (stepCore s e).1 (ste
         simp only at hk hresp
         obtain ⟨nr, hrr, hres⟩ := resolve_hmac hresp
         subst hk hrr
-        exact ⟨a, b, Or.inr ⟨ty, x, nr, n, rfl, hlt, hfl, rfl, hres, hp, hr⟩⟩
+        exact ⟨a, b, Or.inr ⟨ty, .client x, nr, n, rfl, hlt, hfl, rfl, hres, hp, hr⟩⟩
     · intro _ x hk
       simp only at hk
       subst hk
@@ -679,7 +679,7 @@ theorem stepCore_spec (s : Srv) (e : Event) : StepSpec s e (stepCore s e).1 (ste
   | refill ip => exact StepSpec.of_same fr rfl rfl rfl rfl (Or.inl rfl) (fun _ _ h => h) (fun _ h => by cases h) rfl
   | exp k => exact StepSpec.of_same fr rfl rfl rfl rfl (Or.inl rfl) (fun _ _ h => h) (fun _ h => by cases h) rfl
   | del k => exact StepSpec.of_same fr rfl rfl rfl rfl (Or.inl rfl) (fun _ _ h => h) (fun _ h => by cases h) rfl
-  | strip k => exact StepSpec.of_same fr rfl rfl rfl rfl (Or.inl rfl) (fun _ _ h => h) (fun _ h => by cases h) rfl
+  | strip k st => exact StepSpec.of_same fr rfl rfl rfl rfl (Or.inl rfl) (fun _ _ h => h) (fun _ h => by cases h) rfl
 
 /-! ### the invariant -/
 
@@ -739,7 +739,7 @@ theorem track_cases (g : Env) (now nc : Nat) (e : Event) (r : RespObs) :
   | refill ip => exact Or.inr (Or.inr ⟨rfl, rfl, rfl⟩)
   | exp k => right; right; simp only [Env.track]; split <;> exact ⟨rfl, rfl, rfl⟩
   | del k => right; right; simp only [Env.track]; split <;> exact ⟨rfl, rfl, rfl⟩
-  | strip k => right; right; simp only [Env.track]; split <;> exact ⟨rfl, rfl, rfl⟩
+  | strip k st => right; right; simp only [Env.track]; split <;> exact ⟨rfl, rfl, rfl⟩
 
 theorem track_xban (g : Env) (now nc : Nat) (e : Event) (r : RespObs) (ip : Nat)
     (h : (g.track now nc e r).xban ip = true) : e = .ban ip ∨ (g.xban ip = true ∧ e ≠ .unban ip) := by
@@ -775,7 +775,7 @@ theorem track_xban (g : Env) (now nc : Nat) (e : Event) (r : RespObs) (ip : Nat)
   | refill ip' => exact Or.inr ⟨h, by simp⟩
   | exp k => right; refine ⟨?_, by simp⟩; simp only [Env.track] at h; split at h <;> exact h
   | del k => right; refine ⟨?_, by simp⟩; simp only [Env.track] at h; split at h <;> exact h
-  | strip k => right; refine ⟨?_, by simp⟩; simp only [Env.track] at h; split at h <;> exact h
+  | strip k st => right; refine ⟨?_, by simp⟩; simp only [Env.track] at h; split at h <;> exact h
 
 theorem step_fields (s : Srv) (e : Event) :
     (step s e).1.ctl = (stepCore s e).1.ctl ∧ (step s e).1.nextNonce = (stepCore s e).1.nextNonce ∧
@@ -988,7 +988,7 @@ theorem Inv.preserved {s : Srv} (I : Inv s) (e : Event) : Inv (Tunnox.C03.step s
       rw [q2]
       have := I.i8 m hmem; omega
 
-theorem Inv.initial (now : Nat) (ips : List Nat) (nc burst : Nat) : Inv (Srv.init now ips nc burst) := by
+theorem Inv.initial (now : Nat) (ips : List Nat) (nc burst : Nat) (secs : List SecState := []) : Inv (Srv.init now ips nc burst secs) := by
   refine ⟨?_, ?_, ?_, ?_, ?_, ?_, ?_, ?_, ?_⟩ <;> simp [Srv.init, pend, pairOf]
 
 /-! ### the observer's predicate on the model's own observations -/
@@ -1218,7 +1218,7 @@ theorem AccInv.preserved {s : Srv} (I : Inv s) (A : AccInv s) (e : Event) : AccI
       · subst hm; have := I.i1 c m hp; omega
       · have := A.a3 m hm; omega
 
-theorem AccInv.initial (now : Nat) (ips : List Nat) (nc burst : Nat) : AccInv (Srv.init now ips nc burst) := by
+theorem AccInv.initial (now : Nat) (ips : List Nat) (nc burst : Nat) (secs : List SecState := []) : AccInv (Srv.init now ips nc burst secs) := by
   refine ⟨?_, ?_, ?_⟩ <;> simp [Srv.init, pend]
 
 theorem reachable_invs (s : Srv) (I : Inv s) (A : AccInv s) (es : List Event) :
@@ -1363,7 +1363,7 @@ theorem step_sound {s : Srv} (R : RegSound s) (e : Event) : RegSound (Tunnox.C03
     | refill ip => exact R
     | exp k => exact R
     | del k => exact R
-    | strip k => exact R
+    | strip k st => exact R
   exact h
 
 theorem reachable_sound (s : Srv) (R : RegSound s) (es : List Event) : RegSound (runState s es) := by
